@@ -22,6 +22,7 @@ type guardRow struct {
 	Acc2  string // HORD on elements: second getter
 	Param2 int
 	NonEmpty int // 1 + index of a list parameter assumed non-empty
+	NonEmptyFn string // result list of this function is non-empty on success
 	Props string // properties that include this row
 	Doc   string // sentence of the documentation / property the row transcribes
 }
@@ -106,7 +107,7 @@ var guardTable = []guardRow{
 	{Func: "transform.ConvertTileXYZsToSpatialIDs", Class: "Z35", Param: 3, NonEmpty: 1, Props: "C13 C15", Doc: "output zoom outside 0-35 (for a non-empty request)"},
 	{Func: "transform.GetExtendedSpatialIdsWithinRadiusOfLine", Class: "NIL", Param: 0, Props: "C14 C15", Doc: "nil start point"},
 	{Func: "transform.GetExtendedSpatialIdsWithinRadiusOfLine", Class: "NIL", Param: 1, Props: "C14 C15", Doc: "nil end point"},
-	{Func: "transform.GetExtendedSpatialIdsWithinRadiusOfLine", Class: "NONNEGF", Param: 2, Props: "C14 C15", Doc: "negative radius is an error"},
+	{Func: "transform.GetExtendedSpatialIdsWithinRadiusOfLine", Class: "NONNEGF", Param: 2, NonEmptyFn: "shape.GetExtendedSpatialIdsOnLine", Props: "C14 C15", Doc: "negative radius is an error (the line query returns at least the end-point voxels on success: rules INCLUDES and MAPORDER of C06/C01)"},
 	{Func: "transform.GetExtendedSpatialIdsWithinRadiusOfLine", Class: "Z35", Param: 3, Props: "C14 C15", Doc: "hZoom outside 0-35"},
 	{Func: "transform.GetExtendedSpatialIdsWithinRadiusOfLine", Class: "Z35", Param: 4, Props: "C14 C15", Doc: "vZoom outside 0-35"},
 	{Func: "transform.FitClearanceAroundExtendedSpatialID", Class: "NONNEGF", Param: 1, Props: "C14 C15", Doc: "negative clearance is an error"},
@@ -126,6 +127,12 @@ var guardTable = []guardRow{
 
 func scenariosFor(w *World, row guardRow, f *ssa.Function) ([]scenario, string) {
 	base := scenario{Param: row.Param, Elem: row.Elem, NonEmpty: row.NonEmpty}
+	if row.NonEmptyFn != "" {
+		base.NonEmptyFn = lookupByName(w, row.NonEmptyFn)
+		if base.NonEmptyFn == nil {
+			return nil, "function " + row.NonEmptyFn + " not found"
+		}
+	}
 	if row.Acc != "" {
 		// resolve getter on the element type
 		fv := getterField(w, f, row.Param, row.Elem, row.Acc)
@@ -492,6 +499,11 @@ func ruleErrUsed(w *World, r *Report, in map[*ssa.Function]bool) {
 				} else {
 					r.Add(Obligation{Rule: "ERRUSED", Key: key, Pos: pos, Status: Violated, Detail: "parse error is read but no test of it leads to a failure return on the non-nil edge (" + shortInstr(c) + ")", Canary: can})
 				}
+				return
+			}
+			// functions without an error result cannot report: outside the property's quantifier
+			if errResultIndex(f) < 0 && e.failConst[f] == nil && !can {
+				r.Add(Obligation{Rule: "ERRUSED", Key: key, Pos: pos, Status: Info, Detail: "parse error discarded in a function without error result (outside the quantifier of C15)"})
 				return
 			}
 			// discarded: need delegated guard for the exported parameter the text comes from
